@@ -3,20 +3,24 @@
    (kind = "ok": the payload of packet `id` as produced by one send_packet; "bad": a malformed payload).
    Send appends exactly ONE element; Recv removes the head and its outcome depends on that element only.
    There is deliberately no buffer variable: that absence is the property (never merged, split or carried over).   *)
-EXTENDS Naturals, Sequences, TLC
-CONSTANTS MaxSend, MaxBad
-VARIABLES net, nsent, nbad, out
-vars == <<net, nsent, nbad, out>>
-Init == net = <<>> /\ nsent = 0 /\ nbad = 0 /\ out = <<>>
+EXTENDS Naturals, Sequences, FiniteSets, TLC
+CONSTANTS MaxSend, MaxBad, MaxErr
+VARIABLES net, nsent, nbad, out, errs, nerr
+vars == <<net, nsent, nbad, out, errs, nerr>>
+Init == net = <<>> /\ nsent = 0 /\ nbad = 0 /\ out = <<>> /\ errs = 0 /\ nerr = 0
 Send == /\ nsent < MaxSend /\ nsent' = nsent + 1 /\ net' = Append(net, [id |-> nsent + 1, kind |-> "ok"])
-        /\ UNCHANGED <<nbad, out>>
-Inject == /\ nbad < MaxBad /\ nbad' = nbad + 1 /\ net' = Append(net, [id |-> 0, kind |-> "bad"]) /\ UNCHANGED <<nsent, out>>
+        /\ UNCHANGED <<nbad, out, errs, nerr>>
+Inject == /\ nbad < MaxBad /\ nbad' = nbad + 1 /\ net' = Append(net, [id |-> 0, kind |-> "bad"]) /\ UNCHANGED <<nsent, out, errs, nerr>>
 Recv == /\ net # <<>> /\ net' = Tail(net)
         /\ out' = Append(out, IF Head(net).kind = "ok" THEN [k |-> "pkt", id |-> Head(net).id] ELSE [k |-> "err", id |-> 0])
-        /\ UNCHANGED <<nsent, nbad>>
-Next == Send \/ Inject \/ Recv
+        /\ UNCHANGED <<nsent, nbad, errs, nerr>>
+\* an asynchronous socket error (ICMP port unreachable, ...) is reported to the endpoint: it is not a datagram.  A later receive
+\* raises it; it takes the place of no datagram.
+SockError == /\ nerr < MaxErr /\ nerr' = nerr + 1 /\ errs' = errs + 1 /\ UNCHANGED <<net, nsent, nbad, out>>
+RecvOsError == /\ errs > 0 /\ errs' = errs - 1 /\ out' = Append(out, [k |-> "oserr", id |-> 0]) /\ UNCHANGED <<net, nsent, nbad, nerr>>
+Next == Send \/ Inject \/ Recv \/ SockError \/ RecvOsError
 Spec == Init /\ [][Next]_vars
 \* every received datagram yields exactly one outcome; packets come out in sending order, none twice
-OneOutcomePerDatagram == Len(out) + Len(net) = nsent + nbad
+OneOutcomePerDatagram == Cardinality({i \in 1..Len(out) : out[i].k \in {"pkt", "err"}}) + Len(net) = nsent + nbad
 PacketsInOrder == \A i, j \in 1..Len(out) : (i < j /\ out[i].k = "pkt" /\ out[j].k = "pkt") => out[i].id < out[j].id
 =============================================================================
